@@ -350,8 +350,16 @@ func (r *Runner) builtin(ctx context.Context, pos syntax.Pos, name string, args 
 			// Note that "wait" without arguments always returns exit status zero.
 			for _, bg := range r.bgProcs {
 				verifYield("wait.before", r)
-				<-bg.done
+				select {
+				case <-bg.done:
+				case <-ctx.Done():
+					// Stop waiting; a job may be stuck in an operation which cannot be cancelled.
+					exit.fatal(ctx.Err())
+				}
 				verifYield("wait.after", r)
+				if exit.fatalExit {
+					return exit
+				}
 			}
 			break
 		}
@@ -363,8 +371,15 @@ func (r *Runner) builtin(ctx context.Context, pos syntax.Pos, name string, args 
 			}
 			bg := r.bgProcs[pid-1]
 			verifYield("wait.before", r)
-			<-bg.done
+			select {
+			case <-bg.done:
+			case <-ctx.Done():
+				exit.fatal(ctx.Err())
+			}
 			verifYield("wait.after", r)
+			if exit.fatalExit {
+				return exit
+			}
 			exit = *bg.exit
 		}
 	case "builtin":
